@@ -152,8 +152,10 @@ def read (s : State) (addr : Nat) : Except Panic Nat :=
     if i < s.romLen then .ok (s.rom i) else .error (.oob "romx")
   else if addr < 0xa000 then rd "vram" s.vram (addr &&& 0x1fff)
   else if addr < 0xc000 then
+    let i := 0x2000 * Cart.getRamBank s.cart + (addr &&& 0x1fff)
     if s.cram.size == 0 then .ok 0xff
-    else rd "cram" s.cram ((0x2000 * Cart.getRamBank s.cart + (addr &&& 0x1fff)) % s.cram.size)
+    else if i ≥ s.cram.size then .ok 0xff
+    else rd "cram" s.cram i
   else if addr < 0xd000 then rd "wram0" s.wram (addr &&& 0xfff)
   else if addr < 0xe000 then rd "wramx" s.wram (0x1000 + (addr &&& 0xfff))
   else if addr < 0xfe00 then .ok 0
@@ -169,10 +171,12 @@ def write (s : State) (addr value : Nat) : Except Panic State :=
   if addr < 0x8000 then .ok { s with cart := Cart.writeRom s.cart addr value }
   else if addr < 0xa000 then do let a ← wr "vram" s.vram (addr &&& 0x1fff) value; pure { s with vram := a }
   else if addr < 0xc000 then
+    let i := 0x2000 * Cart.getRamBank s.cart + (addr &&& 0x1fff)
     if s.cram.size == 0 then .ok s
-    else do
-      let a ← wr "cram" s.cram ((0x2000 * Cart.getRamBank s.cart + (addr &&& 0x1fff)) % s.cram.size) value
+    else if i < s.cram.size then do
+      let a ← wr "cram" s.cram i value
       pure { s with cram := a }
+    else .ok s
   else if addr < 0xd000 then do let a ← wr "wram0" s.wram (addr &&& 0xfff) value; pure { s with wram := a }
   else if addr < 0xe000 then do let a ← wr "wramx" s.wram (0x1000 + (addr &&& 0xfff)) value; pure { s with wram := a }
   else if addr < 0xfe00 then .ok s
